@@ -607,6 +607,9 @@ Verdict(c) ==
     [] c.op = "pickle" -> PickleCase(c)
     [] c.op = "pickle-dual" -> Chk(c.where \o ":rebound-to-the-recorded-namespace-registration",
                                    c.bound_to_namespace_registration /\ c.not_the_global_registration /\ c.paths /\ c.unflatten /\ c.repr)
+    [] c.op = "pickle-history" -> Chk("pickle-generations-1-2-3-equal", c.generations_equal) \o
+                                  Chk("load-after-unregister-raises", c.load_after_unregister_raises) \o
+                                  Chk("load-after-reregister-bound-to-the-current-registration", c.load_after_reregister_bound_to_current /\ c.old_treespec_alive)
     [] c.op = "dataclass" -> DataclassCase(c)
     [] c.op = "partial" -> PartialCase(c)
     [] c.op = "dataclass-hand" -> DataclassHand(c)
